@@ -182,6 +182,10 @@ class SymEval:
         if k == "Cast":
             src_ty = (strip(e["e"]).get("ty") or "") if isinstance(e.get("e"), dict) else ""
             if src_ty in ("f64", "f32") and (e.get("ty") or "") not in ("f64", "f32"):
+                # truncation towards zero, saturating: an opaque function of the value (never the value itself)
+                inner = self.ev(e["e"], env)
+                if inner[0] == "s" and not isinstance(inner[1], PW):
+                    return ("s", self.alg.atom("p:trunc[%r]" % inner[1]))
                 return ("unk", "a float-to-integer cast truncates and saturates (not the identity)")
             return self.ev(e["e"], env)
         if k == "Unary" and e.get("op") == "Neg":
